@@ -1060,7 +1060,9 @@ def judge_errors(spec, rec):
             s['tree'] = ['*', C(2.4), au['a']['tree']]
             expect, label = 'wrong', 'instructor/control'
         elif field == 'author-summand':
-            expect, label = 'unjudged', 'unjudged/instructor-var-in-author-field'
+            # the student never mentions c; a correct submission must be graded correct (known finding while the
+            # author's fields are evaluated in the student's scrubbed scope)
+            expect, label = 'correct', 'instructor/author-only-field'
     elif fault == 'author':
         label = 'author-fault'
         atext = text.replace('VAR', a['var'])
@@ -1079,11 +1081,9 @@ def judge_errors(spec, rec):
             a['lo' if field == 'lower' else 'hi'] = [None, atext]
             touched = [field]
         # the student enters a sound value wherever asked; elsewhere the author's faulty value is used
+        # every failure of the author's own sum is a configuration error (statement, last clause) - also an
+        # unparsable author expression and an author's clashing summation variable that students do not enter
         expect = 'config-error'
-        if strict is False:
-            expect, label = 'unjudged', 'unjudged/unparsable-author-expression'
-        elif strict == 'var' and 'summation_variable' not in spec['pos']:
-            expect, label = 'unjudged', 'unjudged/author-variable-clash-not-requested'
         for f in touched:
             if f not in spec['pos']:
                 # the faulty author value also fills the student's slot
@@ -1106,6 +1106,8 @@ def judge_errors(spec, rec):
         if expect == 'unjudged':
             rec.note(label + '/graded')
             return obs
+        if label == 'instructor/author-only-field':
+            raise Violation('instructor-var-in-author-only-field', 'a correct submission was graded %r' % (val,), **obs)
         if expect in ('correct', 'wrong'):
             raise Violation('instructor-vars/control', 'a sum that never mentions the instructor-only variable '
                             'should be graded %s, got %r' % (expect, val), **obs)
@@ -1118,6 +1120,9 @@ def judge_errors(spec, rec):
     if expect == 'unjudged':
         rec.note('%s/%s' % (label, 'ConfigError' if isinstance(val, ConfigError) else 'StudentFacingError'))
         return obs
+    if label == 'instructor/author-only-field':
+        raise Violation('instructor-var-in-author-only-field', 'a correct submission that never mentions the '
+                        'instructor-only variable raised %s: %s' % (type(val).__name__, str(val)[:200]), **obs)
     if expect == 'student-error':
         if isinstance(val, StudentFacingError):
             if type(val) is StudentFacingError:
